@@ -12,6 +12,9 @@ import Mathlib.Algebra.Field.Rat
 import Mathlib.Algebra.Order.Ring.Rat
 import Mathlib.Tactic.NormNum
 import Mathlib.Tactic.FinCases
+import Mathlib.Algebra.Order.BigOperators.Group.Finset
+import Mathlib.Data.Int.Interval
+import Mathlib.Data.Fintype.Pi
 
 /-! # C06 — rigid transforms move data forward about the centre, exactly on the grid group -/
 set_option linter.unusedSimpArgs false
@@ -851,5 +854,396 @@ example : cleanNoise (1 / 8 : Rat) [1, 9, -2] = [0, 9, -2] := by decide +kernel
 example := cleanNoise_error (1 / 8 : Rat) (by norm_num) [1, 9, -2] 0 (by decide)
 example : cleanNoise (1 / 8388608 : Rat) [0, 3, -5, 9] = [0, 3, -5, 9] :=
   cleanNoise_id _ _ (by decide +kernel)
+
+/-! ## composition, round trip, injectivity, translation composition, mask / coordinate relatives (deepening) -/
+
+/-- composition of the forward maps of two rotations about the same centre is the forward map of the product `R₂·R₁` -/
+theorem forward_comp {α : Type} [CommRing α] {d : Nat} (R1 R2 : Mat d α) (c x : Vec d α) :
+    forward R2 (fun _ => 0) c (forward R1 (fun _ => 0) c x) = forward (matMul R2 R1) (fun _ => 0) c x := by
+  funext i
+  simp only [forward]
+  have : (fun j => matVec R1 (fun j => x j + 0 - c j) j + c j + 0 - c j) = matVec R1 (fun j => x j + 0 - c j) := by
+    funext j; ring
+  rw [this, matVec_matVec]
+
+/-- two pure translations compose additively, whatever the centre: shift `a` then shift `b` is shift `a + b` -/
+theorem forward_translation_comp {α : Type} [CommRing α] {d : Nat} (a b c x : Vec d α) :
+    forward (ident d) b c (forward (ident d) a c x) = forward (ident d) (fun i => a i + b i) c x := by
+  funext i
+  simp only [forward_translation_only]
+  ring
+
+/-- the pull-backs (what the resampler evaluates) compose contravariantly: reading through `B` and then through `A` about
+the same centre is reading through `A·B`, the inverse of the product rotation -/
+theorem pullback_comp {α : Type} [CommRing α] {d : Nat} (A B : Mat d α) (c o : Vec d α) :
+    pullback A (fun _ => 0) c (pullback B (fun _ => 0) c o) = pullback (matMul A B) (fun _ => 0) c o := by
+  funext i
+  simp only [pullback]
+  have : (fun j => matVec B (fun j => o j - c j) j + c j - 0 - c j) = matVec B (fun j => o j - c j) := by
+    funext j; ring
+  rw [this, matVec_matVec]
+
+/-- the same on the grid in doubled coordinates about the geometric centre: if the second transform reads output voxel `o`
+at the grid point `m`, the first transform reads `m` where the transform of the product matrix reads `o` -/
+theorem pull2_comp {d : Nat} (n : Fin d → Nat) (A B : Mat d Int) (o m : Vec d Int)
+    (hm : ∀ i, pull2 n B (fun _ => 0) o i = 2 * m i) :
+    pull2 n A (fun _ => 0) m = pull2 n (matMul A B) (fun _ => 0) o := by
+  funext i
+  have h1 : (fun j => 2 * m j - ((n j : Int) - 1)) = matVec B (fun j => 2 * o j - ((n j : Int) - 1)) := by
+    funext j
+    have := hm j
+    simp only [pull2] at this
+    omega
+  simp only [pull2]
+  rw [h1, matVec_matVec]
+
+/-- **composition of two grid transforms is the transform of the product**: `g` is the output of the first transform
+(inverse matrix `A`), the second (inverse matrix `B`) reads voxel `o` at the voxel `m` of the array; then transforming `g`
+gives at `o` exactly what the single transform with inverse matrix `A·B` gives on the original data -/
+theorem grid_compose {α : Type} [Zero α] {d : Nat} (n : Fin d → Nat) (A B : Mat d Int) (f g : Vec d Int → α)
+    (o m : Vec d Int) (hm : ∀ i, pull2 n B (fun _ => 0) o i = 2 * m i) (hmb : inBox n m = true)
+    (hg : ∀ y, inBox n y = true → gridTransform n A (fun _ => 0) f y = some (g y)) :
+    gridTransform n B (fun _ => 0) g o = gridTransform n (matMul A B) (fun _ => 0) f o := by
+  have h1 : pull2 n B (fun _ => 0) o = fun i => 2 * m i := funext hm
+  have h2 := hg m hmb
+  have h3 : gridTransform n B (fun _ => 0) g o = some (g m) := by
+    simp only [gridTransform, h1, resample_double, hmb]
+    rfl
+  rw [h3, ← h2]
+  simp only [gridTransform, pull2_comp n A B o m hm]
+
+/-- **round trip**: transforming with a grid rotation and then with its inverse (signed permutation leaving the shape
+invariant, e.g. any axis-aligned rotation of a cubic grid) returns the original array exactly, voxel by voxel -/
+theorem grid_round_trip {α : Type} [Zero α] {d : Nat} (n : Fin d → Nat) (A B : Mat d Int)
+    (q : Fin d → Fin d) (s : Fin d → Int) (hB : IsSignedPerm B q s) (hn : ∀ i, n (q i) = n i)
+    (hAB : matMul A B = ident d) (f g : Vec d Int → α)
+    (hg : ∀ y, inBox n y = true → gridTransform n A (fun _ => 0) f y = some (g y))
+    (o : Vec d Int) (ho : inBox n o = true) :
+    gridTransform n B (fun _ => 0) g o = some (f o) := by
+  obtain ⟨m, hmb, hm⟩ := push2_signedPerm_box hB n hn o ho
+  have hm' : ∀ i, pull2 n B (fun _ => 0) o i = 2 * m i := by
+    intro i; rw [pull2_eq_push2]; exact hm i
+  rw [grid_compose n A B f g o m hm' hmb hg, hAB]
+  exact identity_id n f o ho
+
+/-- **no value is duplicated**: for an invertible integer matrix (any integer translation) two different output voxels are
+never read from the same source position; with `grid_perm` / `grid_perm_onto` the values of a grid rotation are a
+rearrangement of the input values, so their total (mass) is unchanged -/
+theorem pull2_injective {d : Nat} (n : Fin d → Nat) (R rinv : Mat d Int) (t o o' : Vec d Int)
+    (hinv : matMul R rinv = ident d) (h : pull2 n rinv t o = pull2 n rinv t o') : o = o' := by
+  have h1 : matVec rinv (fun j => 2 * o j - ((n j : Int) - 1)) = matVec rinv (fun j => 2 * o' j - ((n j : Int) - 1)) := by
+    funext i
+    have := congrFun h i
+    simp only [pull2] at this
+    omega
+  have h2 : matVec R (matVec rinv (fun j => 2 * o j - ((n j : Int) - 1))) =
+      matVec R (matVec rinv (fun j => 2 * o' j - ((n j : Int) - 1))) := by rw [h1]
+  funext i
+  have h3 := congrFun h2 i
+  simp only [matVec_matVec, hinv, matVec_ident] at h3
+  omega
+
+/-- **translation composition with zero fill**: shifting by `a` and then by `b` (`g` = output of the first shift) gives
+`f[o − b − a]` when both the intermediate position `o − b` and the source `o − b − a` are voxels of the array, else `0`:
+data that left the grid at the intermediate step does not come back -/
+theorem int_translation_compose {α : Type} [Zero α] {d : Nat} (n : Fin d → Nat) (a b : Vec d Int)
+    (f g : Vec d Int → α) (hg : ∀ y, inBox n y = true → gridTransform n (ident d) a f y = some (g y)) (o : Vec d Int) :
+    gridTransform n (ident d) b g o =
+      some (if inBox n (fun i => o i - b i) then
+        (if inBox n (fun i => o i - b i - a i) then f (fun i => o i - b i - a i) else 0) else 0) := by
+  rw [int_translation_shift]
+  split
+  · rename_i hb
+    have h2 := hg _ hb
+    rw [int_translation_shift] at h2
+    simp only [Option.some.injEq] at h2
+    rw [← h2]
+  · rfl
+
+/-- … so wherever the intermediate position is inside the array the two shifts are the single shift by `a + b` -/
+theorem int_translation_compose_add {α : Type} [Zero α] {d : Nat} (n : Fin d → Nat) (a b : Vec d Int)
+    (f g : Vec d Int → α) (hg : ∀ y, inBox n y = true → gridTransform n (ident d) a f y = some (g y)) (o : Vec d Int)
+    (hb : inBox n (fun i => o i - b i) = true) :
+    gridTransform n (ident d) b g o = gridTransform n (ident d) (fun i => a i + b i) f o := by
+  rw [int_translation_compose n a b f g hg o, if_pos hb, int_translation_shift]
+  have : (fun i => o i - (a i + b i)) = fun i => o i - b i - a i := by funext i; omega
+  rw [this]
+
+/-- **the mask is moved by exactly the same index map, pointwise**: for every output voxel either both data and mask are
+interpolated, or there is one source voxel `src` that both are read from (both zero-filled when `src` is outside) -/
+theorem mask_pointwise_same_source {α : Type} [Zero α] {d : Nat} (n : Fin d → Nat) (rinv : Mat d Int) (t : Vec d Int)
+    (f g : Vec d Int → α) (o : Vec d Int) :
+    (gridTransform n rinv t f o = none ∧ gridTransform n rinv t g o = none) ∨
+    ∃ src : Vec d Int, (∀ i, pull2 n rinv t o i = 2 * src i) ∧
+      gridTransform n rinv t f o = some (if inBox n src then f src else 0) ∧
+      gridTransform n rinv t g o = some (if inBox n src then g src else 0) := by
+  by_cases hev : isEven (pull2 n rinv t o) = true
+  · right
+    obtain ⟨src, hs⟩ : ∃ src : Vec d Int, pull2 n rinv t o = fun i => 2 * src i := by
+      refine ⟨fun i => pull2 n rinv t o i / 2, ?_⟩
+      funext i
+      have := (isEven_iff _).mp hev i
+      show pull2 n rinv t o i = 2 * (pull2 n rinv t o i / 2)
+      omega
+    refine ⟨src, fun i => congrFun hs i, ?_, ?_⟩ <;> simp only [gridTransform, hs, resample_double]
+  · left
+    constructor <;> simp only [gridTransform, resample, hev] <;> rfl
+
+/-- coordinate version, default branch: the translation enters additively for data and mask — transforming with `t` is
+transforming with `0` and adding `t` to every point (any matrix, any centre) -/
+theorem coords_translation_additive {K : Type} [Field K] {N M d : Nat} (x : Fin N → Vec d K)
+    (R : Mat d K) (t : Vec d K) (center : Option (Vec d K)) (mask : Fin M → Vec d K) (i : Fin d) :
+    (∀ k, (coordsTransform x R t center mask).1 k i = (coordsTransform x R (fun _ => 0) center mask).1 k i + t i) ∧
+    (∀ k, (coordsTransform x R t center mask).2 k i = (coordsTransform x R (fun _ => 0) center mask).2 k i + t i) := by
+  constructor <;> intro k <;> simp only [coordsTransform, coordsCore] <;> ring
+
+/-- coordinate version, default branch: a mask point keeps its position relative to every coordinate point up to the
+rotation, `mask'ₖ − x'ₗ = R(maskₖ − xₗ)` (the mask is moved by the same rigid map) -/
+theorem coords_mask_relative {K : Type} [Field K] {N M d : Nat} (x : Fin N → Vec d K)
+    (R : Mat d K) (t : Vec d K) (center : Option (Vec d K)) (mask : Fin M → Vec d K) (k : Fin M) (l : Fin N) (i : Fin d) :
+    (coordsTransform x R t center mask).2 k i - (coordsTransform x R t center mask).1 l i =
+      matVec R (fun j => mask k j - x l j) i := by
+  generalize hc : center.getD (mean x) = c
+  have h2 := matVec_sub R (fun j => mask k j - c j) (fun j => x l j - c j) i
+  have h3 : (fun j => (mask k j - c j) - (x l j - c j)) = fun j => mask k j - x l j := by funext j; ring
+  rw [h3] at h2
+  show (matVec R (fun j => mask k j - (center.getD (mean x)) j) i + _) - (matVec R (fun j => x l j - (center.getD (mean x)) j) i + _) = _
+  rw [hc, h2]; ring
+
+/-- … hence squared distances between mask points and coordinate points are preserved when `RᵀR = 1` -/
+theorem coords_mask_dist_preserved {K : Type} [Field K] {N M d : Nat} (x : Fin N → Vec d K)
+    (R : Mat d K) (hR : matMul (transpose R) R = ident d) (t : Vec d K) (center : Option (Vec d K))
+    (mask : Fin M → Vec d K) (k : Fin M) (l : Fin N) :
+    ∑ i, ((coordsTransform x R t center mask).2 k i - (coordsTransform x R t center mask).1 l i) *
+         ((coordsTransform x R t center mask).2 k i - (coordsTransform x R t center mask).1 l i)
+      = ∑ i, (mask k i - x l i) * (mask k i - x l i) := by
+  simp only [coords_mask_relative]
+  exact matVec_norm_sq R hR _
+
+/-- `use_geometric_center=True` branch: the mask is moved by the same map as the coordinates, `mask'ₖ − x'ₗ = R(maskₖ − xₗ)` -/
+theorem coords_geo_mask_relative {K : Type} [Field K] [Max K] [Min K] {N M d : Nat} (hf : K → K)
+    (x : Fin (N+1) → Vec d K) (R : Mat d K) (t : Vec d K) (center : Option (Vec d K)) (mask : Fin M → Vec d K)
+    (k : Fin M) (l : Fin (N+1)) (i : Fin d) :
+    (coordsTransformGeo hf x R t center mask).2 k i - (coordsTransformGeo hf x R t center mask).1 l i =
+      matVec R (fun j => mask k j - x l j) i := by
+  have h2 := matVec_sub R (mask k) (x l) i
+  show (matVec R (mask k) i + _) - (matVec R (x l) i + _) = _
+  rw [h2]; ring
+
+/-- … and mask-to-coordinate squared distances are preserved by the `use_geometric_center=True` branch when `RᵀR = 1` -/
+theorem coords_geo_mask_dist_preserved {K : Type} [Field K] [Max K] [Min K] {N M d : Nat} (hf : K → K)
+    (x : Fin (N+1) → Vec d K) (R : Mat d K) (hR : matMul (transpose R) R = ident d) (t : Vec d K)
+    (center : Option (Vec d K)) (mask : Fin M → Vec d K) (k : Fin M) (l : Fin (N+1)) :
+    ∑ i, ((coordsTransformGeo hf x R t center mask).2 k i - (coordsTransformGeo hf x R t center mask).1 l i) *
+         ((coordsTransformGeo hf x R t center mask).2 k i - (coordsTransformGeo hf x R t center mask).1 l i)
+      = ∑ i, (mask k i - x l i) * (mask k i - x l i) := by
+  simp only [coords_geo_mask_relative]
+  exact matVec_norm_sq R hR _
+
+/-- `use_geometric_center=True` branch: centre and translation enter additively — the output is the output for centre `0`
+and translation `0`, moved by `centre + t` (data and mask alike) -/
+theorem coords_geo_centre_translation_additive {K : Type} [Field K] [Max K] [Min K] {N M d : Nat} (hf : K → K)
+    (x : Fin (N+1) → Vec d K) (R : Mat d K) (t c : Vec d K) (mask : Fin M → Vec d K) (i : Fin d) :
+    (∀ k, (coordsTransformGeo hf x R t (some c) mask).1 k i =
+      (coordsTransformGeo hf x R (fun _ => 0) (some (fun _ => 0)) mask).1 k i + c i + t i) ∧
+    (∀ k, (coordsTransformGeo hf x R t (some c) mask).2 k i =
+      (coordsTransformGeo hf x R (fun _ => 0) (some (fun _ => 0)) mask).2 k i + c i + t i) := by
+  constructor <;> intro k <;> simp only [coordsTransformGeo, coordsGeoCore, Option.getD_some] <;> ring
+
+/-! ### total mass (`S` is the index box as a finite set) -/
+
+/-- **mass is never increased by an integer shift of non-negative data** (zero fill only removes what leaves the grid) -/
+theorem shift_mass_le {K : Type} [Field K] [LinearOrder K] [IsStrictOrderedRing K] {d : Nat} (n : Fin d → Nat)
+    (S : Finset (Vec d Int)) (hS : ∀ x, x ∈ S ↔ inBox n x = true) (f : Vec d Int → K) (hf : ∀ x, 0 ≤ f x)
+    (t : Vec d Int) :
+    ∑ o ∈ S, (gridTransform n (ident d) t f o).getD 0 ≤ ∑ x ∈ S, f x := by
+  simp only [int_translation_shift, Option.getD_some]
+  rw [← Finset.sum_filter]
+  have hinj : Set.InjOn (fun (o : Vec d Int) => (fun i => o i - t i : Vec d Int))
+      ↑(S.filter (fun o => inBox n (fun i => o i - t i) = true)) := by
+    intro a _ b _ h
+    funext i
+    have := congrFun h i
+    simp only at this
+    omega
+  rw [← Finset.sum_image (f := f) hinj]
+  apply Finset.sum_le_sum_of_subset_of_nonneg
+  · intro x hx
+    obtain ⟨o, ho, rfl⟩ := Finset.mem_image.mp hx
+    exact (hS _).mpr (Finset.mem_filter.mp ho).2
+  · intro x _ _
+    exact hf x
+
+/-- **total mass is preserved by every grid rotation** (signed permutation leaving the shape invariant, e.g. any
+axis-aligned rotation of a cubic grid): the output values are a rearrangement of the input values -/
+theorem grid_mass_preserved {K : Type} [Field K] {d : Nat} (n : Fin d → Nat) (R rinv : Mat d Int)
+    (q : Fin d → Fin d) (s : Fin d → Int) (hRi : IsSignedPerm rinv q s) (hn : ∀ i, n (q i) = n i)
+    (hinv : matMul R rinv = ident d) (S : Finset (Vec d Int)) (hS : ∀ x, x ∈ S ↔ inBox n x = true)
+    (f : Vec d Int → K) :
+    ∑ o ∈ S, (gridTransform n rinv (fun _ => 0) f o).getD 0 = ∑ x ∈ S, f x := by
+  have key : ∀ o, ∃ x, o ∈ S → (x ∈ S ∧ (∀ i, push2 n R (fun _ => 0) x i = 2 * o i) ∧
+      gridTransform n rinv (fun _ => 0) f o = some (f x)) := by
+    intro o
+    by_cases ho : o ∈ S
+    · obtain ⟨x, h1, h2, h3⟩ := grid_perm_onto n R rinv q s hRi hn hinv f o ((hS o).mp ho)
+      exact ⟨x, fun _ => ⟨(hS x).mpr h1, h2, h3⟩⟩
+    · exact ⟨o, fun h => absurd h ho⟩
+  choose σ hσ using key
+  have h1 : ∑ o ∈ S, (gridTransform n rinv (fun _ => 0) f o).getD 0 = ∑ o ∈ S, f (σ o) :=
+    Finset.sum_congr rfl (fun o ho => by rw [(hσ o ho).2.2]; rfl)
+  have hinj : Set.InjOn σ ↑S := by
+    intro a ha b hb hab
+    funext i
+    have e1 := (hσ a (Finset.mem_coe.mp ha)).2.1 i
+    have e2 := (hσ b (Finset.mem_coe.mp hb)).2.1 i
+    rw [hab] at e1
+    omega
+  have himg : S.image σ = S :=
+    Finset.eq_of_subset_of_card_le
+      (by intro x hx; obtain ⟨o, ho, rfl⟩ := Finset.mem_image.mp hx; exact (hσ o ho).1)
+      (by rw [Finset.card_image_of_injOn hinj])
+  rw [h1, ← Finset.sum_image (f := f) hinj, himg]
+
+/-- … and **exactly preserved** by an integer shift when no non-zero voxel leaves the grid (any sign of the data) -/
+theorem shift_mass_eq {K : Type} [Field K] {d : Nat} (n : Fin d → Nat)
+    (S : Finset (Vec d Int)) (hS : ∀ x, x ∈ S ↔ inBox n x = true) (f : Vec d Int → K) (t : Vec d Int)
+    (hsupp : ∀ x, inBox n x = true → f x ≠ 0 → inBox n (fun i => x i + t i) = true) :
+    ∑ o ∈ S, (gridTransform n (ident d) t f o).getD 0 = ∑ x ∈ S, f x := by
+  simp only [int_translation_shift, Option.getD_some]
+  rw [← Finset.sum_filter]
+  have hinj : Set.InjOn (fun (o : Vec d Int) => (fun i => o i - t i : Vec d Int))
+      ↑(S.filter (fun o => inBox n (fun i => o i - t i) = true)) := by
+    intro a _ b _ h
+    funext i
+    have := congrFun h i
+    simp only at this
+    omega
+  rw [← Finset.sum_image (f := f) hinj]
+  apply Finset.sum_subset
+  · intro x hx
+    obtain ⟨o, ho, rfl⟩ := Finset.mem_image.mp hx
+    exact (hS _).mpr (Finset.mem_filter.mp ho).2
+  · intro x hx hnot
+    by_contra hne
+    apply hnot
+    have hb := hsupp x ((hS x).mp hx) hne
+    have hx' : (fun i => (fun i => x i + t i) i - t i) = x := by funext i; simp only; omega
+    refine Finset.mem_image.mpr ⟨fun i => x i + t i, Finset.mem_filter.mpr ⟨(hS _).mpr hb, ?_⟩, hx'⟩
+    rw [hx']; exact (hS x).mp hx
+
+/-- **composition of two grid rotations, whole array**: when the second inverse matrix is a signed permutation leaving the
+shape invariant, transforming the output `g` of the first transform equals, at every voxel, the single transform of the
+original data with the product matrix (no interpolation at either step) -/
+theorem grid_compose_signedPerm {α : Type} [Zero α] {d : Nat} (n : Fin d → Nat) (A B : Mat d Int)
+    (q : Fin d → Fin d) (s : Fin d → Int) (hB : IsSignedPerm B q s) (hn : ∀ i, n (q i) = n i)
+    (f g : Vec d Int → α) (hg : ∀ y, inBox n y = true → gridTransform n A (fun _ => 0) f y = some (g y))
+    (o : Vec d Int) (ho : inBox n o = true) :
+    gridTransform n B (fun _ => 0) g o = gridTransform n (matMul A B) (fun _ => 0) f o := by
+  obtain ⟨m, hmb, hm⟩ := push2_signedPerm_box hB n hn o ho
+  exact grid_compose n A B f g o m (fun i => by rw [pull2_eq_push2]; exact hm i) hmb hg
+
+/-- `out.max(axis=1)` of a set shifted by a common vector -/
+theorem maxFin_add_const {K : Type} [Field K] [LinearOrder K] [IsStrictOrderedRing K] :
+    ∀ (N : Nat) (f : Fin (N+1) → K) (b : K), maxFin N (fun k => f k + b) = maxFin N f + b
+  | 0, _, _ => rfl
+  | N+1, f, b => by
+      have ih : maxFin N (fun k => f k.castSucc + b) = maxFin N (fun k => f k.castSucc) + b :=
+        maxFin_add_const N _ b
+      show max (maxFin N (fun k => f k.castSucc + b)) (f (Fin.last (N+1)) + b) =
+        max (maxFin N (fun k => f k.castSucc)) (f (Fin.last (N+1))) + b
+      rw [ih, max_add_add_right]
+
+/-- `out.min(axis=1)` of a set shifted by a common vector -/
+theorem minFin_add_const {K : Type} [Field K] [LinearOrder K] [IsStrictOrderedRing K] :
+    ∀ (N : Nat) (f : Fin (N+1) → K) (b : K), minFin N (fun k => f k + b) = minFin N f + b
+  | 0, _, _ => rfl
+  | N+1, f, b => by
+      have ih : minFin N (fun k => f k.castSucc + b) = minFin N (fun k => f k.castSucc) + b :=
+        minFin_add_const N _ b
+      show min (minFin N (fun k => f k.castSucc + b)) (f (Fin.last (N+1)) + b) =
+        min (minFin N (fun k => f k.castSucc)) (f (Fin.last (N+1))) + b
+      rw [ih, min_add_add_right]
+
+/-- **`use_geometric_center=True` places the bounding box**: with `ext` the extent of the rotated set along axis `i`, the
+transformed set has its maximum at `centre + t + ext // 2` and its minimum at `centre + t + ext // 2 − ext`, i.e. the
+box is centred on `centre + t` up to the floor division of the code -/
+theorem coords_geo_bounding_box {K : Type} [Field K] [LinearOrder K] [IsStrictOrderedRing K] {N M d : Nat} (hf : K → K)
+    (x : Fin (N+1) → Vec d K) (R : Mat d K) (t : Vec d K) (center : Option (Vec d K)) (mask : Fin M → Vec d K)
+    (i : Fin d) :
+    maxFin N (fun k => (coordsTransformGeo hf x R t center mask).1 k i) =
+      (center.getD (mean x)) i + t i +
+        hf (maxFin N (fun k => matVec R (x k) i) - minFin N (fun k => matVec R (x k) i)) ∧
+    minFin N (fun k => (coordsTransformGeo hf x R t center mask).1 k i) =
+      (center.getD (mean x)) i + t i +
+        hf (maxFin N (fun k => matVec R (x k) i) - minFin N (fun k => matVec R (x k) i)) -
+        (maxFin N (fun k => matVec R (x k) i) - minFin N (fun k => matVec R (x k) i)) := by
+  have hout : (fun k => (coordsTransformGeo hf x R t center mask).1 k i) = fun k => matVec R (x k) i +
+      (t i + ((center.getD (mean x)) i - maxFin N (fun k => matVec R (x k) i) +
+        hf (maxFin N (fun k => matVec R (x k) i) - minFin N (fun k => matVec R (x k) i)))) := rfl
+  rw [hout, maxFin_add_const, minFin_add_const]
+  constructor <;> ring
+
+/-- **shift there and back**: shifting by `t` and then by `−t` returns `f[o]` at every voxel whose intermediate position
+`o + t` stayed on the grid, and `0` (zero fill, data lost) at the others -/
+theorem int_translation_round_trip {α : Type} [Zero α] {d : Nat} (n : Fin d → Nat) (t : Vec d Int)
+    (f g : Vec d Int → α) (hg : ∀ y, inBox n y = true → gridTransform n (ident d) t f y = some (g y)) (o : Vec d Int)
+    (ho : inBox n o = true) :
+    gridTransform n (ident d) (fun i => - t i) g o = some (if inBox n (fun i => o i + t i) then f o else 0) := by
+  rw [int_translation_compose n t (fun i => - t i) f g hg o]
+  have h1 : (fun i => o i - -t i) = fun i => o i + t i := by funext i; omega
+  have h2 : (fun i => o i - -t i - t i) = o := by funext i; omega
+  rw [h1, h2, ho]
+  rfl
+
+/-- **data and mask values land on the same voxel**: whenever the image of voxel `x` is the grid point `y`, the data
+output at `y` is the data at `x` and the mask output at `y` is the mask at `x` (`rigid_transform` with `arr_mask`) -/
+theorem mask_value_lands {α : Type} [Zero α] {d : Nat} (n : Fin d → Nat) (R rinv : Mat d Int) (t x y : Vec d Int)
+    (f g : Vec d Int → α) (hinv : matMul rinv R = ident d) (hy : ∀ i, push2 n R t x i = 2 * y i) :
+    (rigidGrid n rinv t f (some g)).1 y = some (if inBox n x then f x else 0) ∧
+    (rigidGrid n rinv t f (some g)).2.map (fun G => G y) = some (some (if inBox n x then g x else 0)) := by
+  refine ⟨grid_value_lands n R rinv t x y f hinv hy, ?_⟩
+  simp only [rigidGrid, Option.map_some]
+  rw [grid_value_lands n R rinv t x y g hinv hy]
+
+/-- coordinate version with the identity matrix: a pure translation of every point and every mask point by `t`
+(in particular the identity transform leaves coordinates and mask unchanged) -/
+theorem coords_pure_translation {K : Type} [Field K] {N M d : Nat} (hN : (N : K) ≠ 0) (x : Fin N → Vec d K)
+    (t : Vec d K) (mask : Fin M → Vec d K) (i : Fin d) :
+    (∀ k, (coordsTransform x (ident d) t none mask).1 k i = x k i + t i) ∧
+    (∀ k, (coordsTransform x (ident d) t none mask).2 k i = mask k i + t i) := by
+  constructor <;> intro k
+  · simp only [coords_formula_default hN, matVec_ident]; ring
+  · simp only [coords_mask_same_map hN, matVec_ident, Option.getD_none]; ring
+
+-- such an `S` exists for every shape
+example {d : Nat} (n : Fin d → Nat) : ∃ S : Finset (Vec d Int), ∀ x, x ∈ S ↔ inBox n x = true :=
+  ⟨Fintype.piFinset (fun i => Finset.Ico (0 : Int) (n i)), fun x => by
+    rw [inBox_iff, Fintype.mem_piFinset]; simp only [Finset.mem_Ico]⟩
+
+-- non-vacuity of the new hypotheses: the quarter-turn instance; `g` = output of the first transform
+example : ∃ g : Vec 3 Int → Int, ∀ y, inBox exN3 y = true → gridTransform exN3 exR3 (fun _ => 0) exF3 y = some (g y) :=
+  ⟨fun y => (gridTransform exN3 exR3 (fun _ => 0) exF3 y).getD 0, fun y _ => by
+    obtain ⟨src, h⟩ := grid_never_interpolates exN3 exR3 exQ3 exS3 exR3_signed exN3_inv (fun _ => 0) exF3 y
+    simp only [h, Option.getD_some]⟩
+example : gridTransform exN3 exR3inv (fun _ => 0) (fun y => (gridTransform exN3 exR3 (fun _ => 0) exF3 y).getD 0) exX3 =
+    some (exF3 exX3) :=
+  grid_round_trip exN3 exR3 exR3inv exQ3 exS3inv exR3inv_signed exN3_inv exR3_inv' exF3 _ (fun y _ => by
+    obtain ⟨src, h⟩ := grid_never_interpolates exN3 exR3 exQ3 exS3 exR3_signed exN3_inv (fun _ => 0) exF3 y
+    simp only [h, Option.getD_some]) exX3 (by decide)
+example : pull2 exN3 exR3inv (vecOfList 3 [1, 0, 2]) exX3 ≠ pull2 exN3 exR3inv (vecOfList 3 [1, 0, 2]) (vecOfList 3 [4, 5, 3]) :=
+  fun h => absurd (congrFun (pull2_injective exN3 exR3 exR3inv _ _ _ exR3_inv' h) 0) (by decide)
+example : gridTransform exN3 (ident 3) (vecOfList 3 [0, 1, 0])
+      (fun y => (gridTransform exN3 (ident 3) (vecOfList 3 [1, 2, 1]) exF3 y).getD 0) exX3 =
+    gridTransform exN3 (ident 3) (fun i => vecOfList 3 [1, 2, 1] i + vecOfList 3 [0, 1, 0] i) exF3 exX3 :=
+  int_translation_compose_add exN3 _ _ exF3 _ (fun y _ => by rw [int_translation_shift]; rfl) exX3 (by decide)
+example := coords_mask_dist_preserved exPts exRq exRq_orth exT none (fun _ : Fin 1 => exC) 0 2
+example : ∀ x, inBox exN3 x = true → exF3 x ≠ 0 → inBox exN3 (fun i => x i + (fun _ => (0 : Int)) i) = true :=
+  fun x h _ => by simpa using h
+example := mask_value_lands exN3 exR3 exR3inv (fun _ => 0) exX3 (vecOfList 3 [4, 5, 3]) exF3 (fun _ => (1 : Int)) exR3_inv
+  (by intro i; fin_cases i <;> rfl)
+example := coords_pure_translation (K := Rat) (N := 3) (by norm_num) exPts exT (fun _ : Fin 1 => exC) 0
+example := coords_geo_bounding_box halfFloorRat exPts exRq exT none (fun _ : Fin 1 => exC) 0
+example := coords_geo_mask_dist_preserved halfFloorRat exPts exRq exRq_orth exT none (fun _ : Fin 1 => exC) 0 2
+
 
 end Pm.C06
